@@ -1,14 +1,17 @@
-import Logrange.Model.RdQueryLoop
+import Logrange.Proofs.RdOffsetBwd
 import Logrange.Generated.C03
 /-!
 # C16 — Backward navigation and offsets are consistent with forward order
 
 Property theorems only; the model is `Logrange/Model/RdOffset.lean` (`crsr.Offset`, `iterateToPos`) over
 `RdCursor.lean` (mixer tree, fiterator) and the two journal iterators, compared op by op with the real cursor
-by harness/cmd/c16. The universal offset laws are kept as statements (`…_stmt`); beside them are
-kernel-evaluated instances over a three-chunk journal with an empty chunk (every k from 0 to beyond both
-ends, with and without a filter, one partition and a fixed-order merge of two), and the counterexample for the
-open finding on tie order between cursor incarnations.
+by harness/cmd/c16. For ONE partition (un-ranged, with or without a WHERE filter) the three laws are proved
+for ALL journals, all `k` and all read lengths (`head_plus_k`, `tail_minus_k`, `plus_minus_k`, and the general
+`offset_forward` / `offset_backward`), on the faithful model of `crsr.Offset` (no intermediate model): the proof
+goes through a flat-index abstraction of both journal-iterator directions (`Proofs/RdIterFwd.lean`,
+`Proofs/RdIterBwd.lean`) and of the one-source cursor with its fiterator cache (`Proofs/RdPaging.lean`,
+`RdOffsetLaws.lean`, `RdOffsetBwd.lean`). Merged cursors: kernel-evaluated fixed-order instance and the
+counterexample for the open finding on tie order between cursor incarnations.
 -/
 namespace Logrange.Props.C16
 open Logrange.Rd Logrange.Generated.C03
@@ -24,36 +27,78 @@ theorem offset_zero (c : Cur) : offset c 0 = c := by simp [offset]
 def r (l : Nat) (k : Bool := true) (ts : Int := l) : Rec := { lbl := l, ts := ts, keep := k }
 def j3 : Journal := [⟨10, [r 0, r 1 false, r 2], 0, maxU32⟩, ⟨20, [], 0, maxU32⟩, ⟨30, [r 3, r 4 false, r 5, r 6], 0, maxU32⟩]
 
-def cur1 (j : Journal) (w : Bool) : Cur := mkCur [{ name := 0, jrnl := j }] w none none false
-def keepOf (w : Bool) (x : Rec) : Bool := !w || x.keep
-def fwd (j : Journal) (w : Bool) : List Rec := (flat j).filter (keepOf w)
+def curJ (j : Journal) (w : Bool) : Cur := mkCur [{ name := 0, jrnl := j }] w none none false
+def fwd (j : Journal) (w : Bool) : List Rec := (flat j).filter (keepW w)
 def read (c : Cur) : List Rec := (readLoop 100 c []).2
 
-/-- **head_plus_k** (statement): `head` with offset +k skips exactly the first k matching events -/
-def head_plus_k_stmt : Prop :=
-  ∀ (j : Journal) (w : Bool) (k : Nat), Sorted j → (flat j).length ≤ 100 →
-    read (offset (applyCorner (cur1 j w) false) k) = (fwd j w).drop k
-/-- **tail_minus_k** (statement): `tail` with offset -k, then a forward read: the last k events (all if shorter) -/
-def tail_minus_k_stmt : Prop :=
-  ∀ (j : Journal) (w : Bool) (k : Nat), Sorted j → (flat j).length ≤ 100 →
-    read (offset (applyCorner (cur1 j w) true) (-(k : Int))) = (fwd j w).drop ((fwd j w).length - k)
-/-- **plus_minus_k** (statement): after i events, +k then -k (both inside the data) leads back to event i -/
-def plus_minus_k_stmt : Prop :=
-  ∀ (j : Journal) (w : Bool) (i k : Nat), Sorted j → (flat j).length ≤ 100 → i + k ≤ (fwd j w).length →
-    (read (offset (offset (readLoop i (cur1 j w) []).1 k) (-(k : Int)))).head? = ((fwd j w).drop i).head?
+/-! ## the laws, one partition, for ALL journals
 
-/-! ### bounded instances evaluated by the kernel -/
+`fwdAll j w` is the forward result (stored order, WHERE applied); `readN n c` reads at most `n` events forward.
+Hypotheses: `Sorted j` (chunk ids increase); for the backward walk `PosIds j` (no chunk id 0 — ids are
+time-derived), `bw_ChunkBound j` (a chunk holds at most 2^32 records — its count is a uint32; without it the
+model's backward chunk entry at index MaxUint32 would lose the tail of a larger chunk, see
+`bw_getBwdSpec_false`), and `IdsBelowTail j` (every id is below the `tail` id 0xFFFF…). -/
+
+def fwdAll (j : Journal) (w : Bool) : List Rec := (flat j).filter (keepW w)
+
+/-- **head_plus_k**: `head` with offset +k skips exactly the first k matching events. -/
+theorem head_plus_k (name : Nat) (j : Journal) (w : Bool) (k n : Nat) (hs : Sorted j) :
+    readN n (offset (applyCorner (mk1 name j w) false) (k : Int)) = ((fwdAll j w).drop k).take n :=
+  ob_head_plus_k getFwd nextFwd name j w k n hs
+
+/-- **tail_minus_k**: `tail` with offset −k followed by a forward read returns exactly the last k events of the
+forward result (all of it if shorter). -/
+theorem tail_minus_k (name : Nat) (j : Journal) (w : Bool) (k n : Nat) (hs : Sorted j) (hp : PosIds j)
+    (hcb : bw_ChunkBound j) (ht : IdsBelowTail j) :
+    readN n (offset (applyCorner (mk1 name j w) true) (-(k : Int))) =
+      ((fwdAll j w).drop ((fwdAll j w).length - k)).take n :=
+  ob_tail_minus_k getFwd nextFwd bw_getBwd_bounded bw_nextBwd_bounded name j w k n hs hp hcb ht
+
+/-- **plus_minus_k**: from the position after any `m` delivered events, moving by +k and then by −k (both inside
+the data) leads back to the same next event — indeed to the same remaining read. -/
+theorem plus_minus_k (name : Nat) (j : Journal) (w : Bool) (m k n : Nat) (hs : Sorted j) (hp : PosIds j)
+    (hcb : bw_ChunkBound j) (hk : m + k ≤ (fwdAll j w).length) :
+    readN n (offset (offset (readLoop m (applyCorner (mk1 name j w) false) []).1 (k : Int)) (-(k : Int))) =
+      readN n (readLoop m (applyCorner (mk1 name j w) false) []).1 :=
+  ob_plus_minus_k getFwd nextFwd bw_getBwd_bounded bw_nextBwd_bounded name j w m k n hs hp hcb hk
+
+/-- general forward law: from any forward state of a one-source cursor (`Abs … c i`: standing at flat index `i`)
+`Offset(+k)` drops the first `k` of what was left -/
+theorem offset_forward (name : Nat) (j : Journal) (w : Bool) (c : Cur) (i k : Nat) (hs : Sorted j)
+    (h : Abs name j w false c i) :
+    ∃ i', Abs name j w false (offset c (k : Int)) i' ∧ FL j w i' = (FL j w i).drop k :=
+  of_offset_pos getFwd nextFwd hs k h
+
+/-- general backward law: `Offset(−k)` moves the cursor back over `k` matching events, or to the start -/
+theorem offset_backward (name : Nat) (j : Journal) (w : Bool) (c : Cur) (i k : Nat) (hs : Sorted j) (hp : PosIds j)
+    (hcb : bw_ChunkBound j) (h : Abs name j w false c i) :
+    ∃ i', Abs name j w false (offset c (-(k : Int))) i' ∧
+      FL j w i' = (FL j w 0).drop (((FL j w 0).length - (FL j w i).length) - k) :=
+  ob_offset_neg getFwd nextFwd bw_getBwd_bounded bw_nextBwd_bounded hs hp hcb k h
+
+/-- the backward iterator laws need the chunk bound: without it they are false for the model -/
+theorem backward_laws_need_chunk_bound : ¬ GetBwdSpec ∧ ¬ NextBwdSpec :=
+  ⟨bw_getBwdSpec_false, bw_nextBwdSpec_false⟩
+
+/-! ### non-vacuity: the hypotheses hold for a concrete journal, and instances evaluated by the kernel -/
+
+example : Sorted j3 ∧ PosIds j3 ∧ bw_ChunkBound j3 ∧ IdsBelowTail j3 := by
+  refine ⟨by unfold Sorted j3; decide, ?_, ?_, ?_⟩
+  · intro c hc; simp [j3] at hc; rcases hc with rfl | rfl | rfl <;> decide
+  · intro c hc; simp [j3] at hc; rcases hc with rfl | rfl | rfl <;> simp [Chunk.cnt, maxU32]
+  · intro c hc; simp [j3] at hc; rcases hc with rfl | rfl | rfl <;> decide
+
 
 theorem head_plus_k_j3 : ∀ w ∈ [false, true], ∀ k ∈ List.range 10,
-    read (offset (applyCorner (cur1 j3 w) false) (k : Nat)) = (fwd j3 w).drop k := by decide +kernel
+    read (offset (applyCorner (curJ j3 w) false) (k : Nat)) = (fwd j3 w).drop k := by decide +kernel
 
 theorem tail_minus_k_j3 : ∀ w ∈ [false, true], ∀ k ∈ List.range 10,
-    read (offset (applyCorner (cur1 j3 w) true) (-(k : Int))) = (fwd j3 w).drop ((fwd j3 w).length - k) := by
+    read (offset (applyCorner (curJ j3 w) true) (-(k : Int))) = (fwd j3 w).drop ((fwd j3 w).length - k) := by
   decide +kernel
 
 theorem plus_minus_k_j3 : ∀ w ∈ [false, true], ∀ i ∈ List.range 6, ∀ k ∈ List.range 6,
     i + k ≤ (fwd j3 w).length →
-    (read (offset (offset (readLoop i (cur1 j3 w) []).1 (k : Nat)) (-(k : Int)))).head? = ((fwd j3 w).drop i).head? := by
+    (read (offset (offset (readLoop i (curJ j3 w) []).1 (k : Nat)) (-(k : Int)))).head? = ((fwd j3 w).drop i).head? := by
   decide +kernel
 
 /-- two partitions, one incarnation (leaf order fixed), timestamps tie across the partitions: head +k and
